@@ -16,16 +16,21 @@ def main():
     ap = argparse.ArgumentParser()
     ap.add_argument('--only')
     a = ap.parse_args()
-    if sh(['git', '-C', '/repo', 'status', '--porcelain', '--untracked-files=no']).stdout.strip():
-        print('refusing: /repo dirty')
+    WT = '/tmp/verif_benign_wt'   # private worktree of /repo HEAD (regression use; does not block /repo)
+    sh(['git', '-C', '/repo', 'worktree', 'remove', '--force', WT])
+    if sh(['git', '-C', '/repo', 'worktree', 'add', '--detach', WT, 'HEAD']).returncode != 0:
+        print('cannot create worktree')
         return 2
+    os.environ['VERIF_REPO'] = WT
+    os.environ['VERIF_EVIDENCE_DIR'] = '/tmp/verif_benign_evidence'
+    os.environ['VERIF_REPLAY_DIR'] = '/tmp/verif_benign_replays'
     bad = 0
     for d in sorted(glob.glob(os.path.join(V, 'benign', '*'))):
         sid = os.path.basename(d)
         if a.only and sid not in a.only.split(','):
             continue
         p = sid.split('-')[0]
-        if sh(['git', '-C', '/repo', 'apply', os.path.join(d, 'patch.diff')]).returncode != 0:
+        if sh(['git', '-C', WT, 'apply', os.path.join(d, 'patch.diff')]).returncode != 0:
             print(sid, 'patch does not apply')
             continue
         res = {}
@@ -39,13 +44,13 @@ def main():
                 if c.returncode != 0:
                     bad += 1
         finally:
-            sh(['git', '-C', '/repo', 'checkout', '--', '.'])
+            sh(['git', '-C', WT, 'checkout', '--', '.'])
         m = json.load(open(os.path.join(d, 'meta.json')))
         m['checked_by_me'] = {'ran': 'tools_benign.py: git -C /repo apply; baseline_off.sh; quick checks of the property and related ones; git checkout', 'result': res,
                               'all_checks_silent': all(v['exit'] == 0 for k, v in res.items() if k != 'tests')}
         json.dump(m, open(os.path.join(d, 'meta.json'), 'w'), indent=1)
         print(sid, 'tests', res['tests'], {k: v['exit'] for k, v in res.items() if k != 'tests'}, flush=True)
-    sh(['git', '-C', V, 'checkout', '--', 'evidence'])
+    sh(['git', '-C', '/repo', 'worktree', 'remove', '--force', WT])
     print('checks that alarmed:', bad)
     return 1 if bad else 0
 
